@@ -1,5 +1,6 @@
 #!/bin/bash
 # tools/verify_seed.sh <PID> <worktree> [seed-name]
+mkdir -p /tmp/seedscratch
 # Confirms a seeded change: demo passes on clean tree, fails with patch, suite unchanged;
 # then applies it to /repo, runs every quick check, and reverts /repo.
 set -u
@@ -7,11 +8,11 @@ PID=$1; WT=$2; NAME=${3:-$PID}
 S=$WT/_seed
 [ -f $S/patch.diff ] || { echo "no patch"; exit 2; }
 cd $WT
-git diff -- txdbus > /tmp/wt/cur_$NAME.diff
+git diff -- txdbus > /tmp/seedscratch/cur_$NAME.diff
 git checkout -q -- txdbus
-echo "== demo on clean tree"; /venv/bin/python _seed/demo.py >/tmp/wt/demo_clean_$NAME.log 2>&1; echo "exit=$?"
+echo "== demo on clean tree"; /venv/bin/python _seed/demo.py >/tmp/seedscratch/demo_clean_$NAME.log 2>&1; echo "exit=$?"
 git apply $S/patch.diff || { echo "patch does not apply to worktree"; exit 2; }
-echo "== demo with patch"; /venv/bin/python _seed/demo.py >/tmp/wt/demo_patched_$NAME.log 2>&1; echo "exit=$?"; tail -3 /tmp/wt/demo_patched_$NAME.log
+echo "== demo with patch"; /venv/bin/python _seed/demo.py >/tmp/seedscratch/demo_patched_$NAME.log 2>&1; echo "exit=$?"; tail -3 /tmp/seedscratch/demo_patched_$NAME.log
 echo "== suite with patch"; flock /tmp/txdbus-pytest.lock /venv/bin/python -m pytest -q -p no:cacheprovider tests 2>&1 | tail -1
 cd /repo
 if ! git diff --quiet; then echo "/repo dirty, abort"; exit 2; fi
@@ -21,7 +22,7 @@ if git apply --check $S/patch.diff 2>/dev/null; then
   cd /verif
   for c in $(ls txsa/rules | grep -o '^c[0-9][0-9]' | sort -u); do
     C=$(echo $c | tr c C)
-    out=$(TXSA_EVIDENCE_OUT=/tmp/wt/ev_${NAME}_$C.json ./check $C 2>&1 | grep -v conda)
+    out=$(TXSA_EVIDENCE_OUT=/tmp/seedscratch/ev_${NAME}_$C.json ./check $C 2>&1 | grep -v conda)
     rc=$(echo "$out" | grep -c '^VIOLATION')
     if [ "$rc" != "0" ]; then echo "$C: FIRES"; echo "$out" | grep '^FINDING' | head -3 | cut -c1-300; fi
     echo "$out" | grep -q 'ANALYSIS-ERROR' && echo "$C: ANALYSIS-ERROR $(echo "$out" | grep ANALYSIS-ERROR | cut -c1-200)"
@@ -30,3 +31,4 @@ if git apply --check $S/patch.diff 2>/dev/null; then
 else
   echo "patch does not apply to current /repo (needs rebase)"
 fi
+rm -rf /tmp/seedscratch
